@@ -54,7 +54,8 @@ is a numpy scalar (integer or floating), a float or anything else that is neithe
 nor `str` is rejected with `ValueError` — nothing is truncated or converted — and a
 sequence of `int`/`bool` entries with at least one `int` (or empty) is treated as the
 index list of their values (`True` = 1); a non-empty sequence of `bool` only is used by
-numpy as a boolean mask of length `N` (`IndexError` for any other length). -/
+numpy as a boolean mask of length `N` (`IndexError` for any other length) — after the
+range check with `True` = 1, which rejects a `True` entry when `N = 1` (`ValueError`). -/
 theorem seq_non_int_rejected (arr : Arr) (nx ny nz : Nat) (items : List Item) (choices : List (List Nat)) :
     ((∃ it ∈ items, it.isInt = false ∧ it.isStr = false) →
       storageMask arr nx ny nz (.seq items) choices = .error "ValueError")
@@ -63,7 +64,9 @@ theorem seq_non_int_rejected (arr : Arr) (nx ny nz : Nat) (items : List Item) (c
         = storageMask arr nx ny nz (.ints (items.map Item.intVal)) choices)
     ∧ (items ≠ [] → items.all Item.isBool = true →
       storageMask arr nx ny nz (.seq items) choices
-        = if items.length = nTot nx ny nz then .ok (items.map (fun it => it.intVal == 1), false)
+        = if (items.any fun it => decide ((if it.intVal == 1 then 1 else 0 : Int) > (nTot nx ny nz : Int) - 1)) then
+            .error "ValueError"
+          else if items.length = nTot nx ny nz then .ok (items.map (fun it => it.intVal == 1), false)
           else .error "IndexError") := by
   constructor
   · rintro ⟨it, hit, h1, h2⟩
